@@ -1,5 +1,7 @@
 """Sidecar contracts, one module per area.  PROPS maps a property id to the
 contract modules that must be loaded to decide it."""
 PROPS = {
-    'C12': ['contracts.c12_cbc_check'],
+    'C12': ['contracts.c12_cbc_check', 'contracts.recordlayer'],
+    'C01': ['contracts.c12_cbc_check', 'contracts.recordlayer'],
+    'C02': ['contracts.c12_cbc_check', 'contracts.recordlayer'],
 }
